@@ -44,9 +44,9 @@ package store
 //@   requires [hashlen] len(hash) >= 1
 //@   ensures [wf] {C06,C04} wfIndex(idx)
 //@   ensures [strict] {C06,C04} old(strictEntries(idx.Entries)) ==> strictEntries(idx.Entries)
-//@   ensures [present] {C04,C06,C09} err == nil ==> exists k int :: 0 <= k && k < len(idx.Entries) && string(idx.Entries[k].Path) == string(path) && string(idx.Entries[k].Hash) == string(hash)
-//@   ensures [others-kept] {C04,C06,C09} forall i int :: 0 <= i && i < len(old(idx.Entries)) && string(old(idx.Entries)[i].Path) != string(path) ==> exists j int :: 0 <= j && j < len(idx.Entries) && idx.Entries[j] == old(idx.Entries)[i]
-//@   ensures [nothing-new] {C04,C06,C09} forall j int :: 0 <= j && j < len(idx.Entries) ==> (string(idx.Entries[j].Path) == string(path) && string(idx.Entries[j].Hash) == string(hash)) || (exists i int :: 0 <= i && i < len(old(idx.Entries)) && old(idx.Entries)[i] == idx.Entries[j])
+//@   ensures [present] {C04,C06,C09,C02} err == nil ==> exists k int :: 0 <= k && k < len(idx.Entries) && string(idx.Entries[k].Path) == string(path) && string(idx.Entries[k].Hash) == string(hash)
+//@   ensures [others-kept] {C04,C06,C09,C02} forall i int :: 0 <= i && i < len(old(idx.Entries)) && string(old(idx.Entries)[i].Path) != string(path) ==> exists j int :: 0 <= j && j < len(idx.Entries) && idx.Entries[j] == old(idx.Entries)[i]
+//@   ensures [nothing-new] {C04,C06,C09,C02} forall j int :: 0 <= j && j < len(idx.Entries) ==> (string(idx.Entries[j].Path) == string(path) && string(idx.Entries[j].Hash) == string(hash)) || (exists i int :: 0 <= i && i < len(old(idx.Entries)) && old(idx.Entries)[i] == idx.Entries[j])
 //@   ensures [noop] {C04} !changed && err == nil ==> seqEq(idx.Entries, old(idx.Entries))
 
 //@ func Index.DeleteEntry
